@@ -83,6 +83,18 @@ def model(name):
         obj = lin(lin(sq(["bin", "-", x0, ["raw", 1.0, "float"]]), sq(x1)), mul(P_, Q_))
         cons = [["rel", "<=", ["sum", _x], P_, "direct"]]
         return base, obj, cons, "min"
+    if name == "vector-param-on-the-right":
+        # `vector @ VectorParameter` and `vector-expression @ VectorParameter` (the parameter vector as the RIGHT operand)
+        d = base + [{"k": "vpar", "name": "r", "vals": [1.0, -2.0]}]
+        obj = lin(lin(["matmul", _x, ["vparv", "r"]], ["matmul", ["vbin", "+", _x, ["raw", 1.0, "float"]], ["vparv", "r"]]), ["dot", _x, _x])
+        cons = [["rel", ">=", ["sum", _x], ["bin", "-", Q_, ["raw", 1.0, "float"]], "direct"]]
+        return d, obj, cons, "min"
+    if name == "divisor-params-linear":
+        # linear in the variables, the parameters appear only as divisors
+        d = [{"k": "vec", "name": "x", "n": 2, "lb": 0.0, "ub": 10.0}] + base[1:]
+        obj = lin(["bin", "/", x0, P_], ["bin", "/", mul(1.25, x1), ["raw", 1.0, "float"]])
+        cons = [["rel", ">=", lin(x0, x1), ["raw", 2.0, "float"], "direct"], ["rel", "<=", ["bin", "/", ["bin", "-", x0, x1], P_], ["raw", 4.0, "float"], "direct"]]
+        return d, obj, cons, "min"
     if name == "deep-accumulated":
         # an objective accumulated term by term beyond the depth at which the iterative compiler / differentiator take over,
         # with the parameters inside the accumulation
@@ -99,7 +111,7 @@ def model(name):
 
 
 MODELS = ["coef+rhs", "fn-arg+cons-coef", "vector-param", "lp-like", "exponent", "matrix-param", "bare-param-derivative",
-          "max-concave", "constant-term", "deep-accumulated"]
+          "max-concave", "constant-term", "deep-accumulated", "vector-param-on-the-right", "divisor-params-linear"]
 METHODS = ["auto", "SLSQP", "trust-constr"]
 
 
